@@ -95,13 +95,12 @@ structure PInv (pr : PA) (votes : List Vote) (bals : List Nat) : Prop where
   wf : WF pr
   chain : Chain pr
   nz : NoZero pr
-  vin : VotesIn pr votes
   w : WeightsAre pr votes bals
 
 theorem PInv.frame {pr pr' : PA} {votes : List Vote} {bals : List Nat} (I : PInv pr votes bals) (hw : WF pr')
     (f : Frame pr pr') : PInv pr' votes bals :=
   ⟨hw, chain_congr f.indices f.blockSlots f.len f.skel I.chain, noZero_frame pr pr' f I.nz,
-   votesIn_frame pr pr' f votes I.vin, weights_frame pr pr' f votes bals I.w⟩
+   weights_frame pr pr' f votes bals I.w⟩
 
 /-- `ComputeDeltas` + `ApplyScoreChanges` re-establish the invariants for the new trackers and balances -/
 theorem PInv.applyDeltas {pr : PA} {votes : List Vote} {oldB : List Nat} (I : PInv pr votes oldB) (newB : List Nat)
@@ -111,8 +110,7 @@ theorem PInv.applyDeltas {pr : PA} {votes : List Vote} {oldB : List Nat} (I : PI
   obtain ⟨ds, vs', e, _, _⟩ := computeDeltas_ok pr I.wf votes oldB newB
   obtain ⟨pr', e2, hw, fr, hwt⟩ := weights_applyDeltas pr I.wf I.nz votes oldB newB I.w ds vs' e jE fE
   refine ⟨ds, vs', pr', e, e2, hw, chain_congr fr.indices fr.blockSlots fr.len fr.skel I.chain,
-    noZero_frameS pr pr' fr I.nz, ?_, hwt⟩
-  exact votesIn_frameS pr pr' fr vs' (votesIn_computeDeltas pr votes oldB newB I.vin ds vs' e)
+    noZero_frameS pr pr' fr I.nz, hwt⟩
 
 /-- invariant of a wrapper state (mutex aside) -/
 def FI (fc : FC) : Prop := PInv fc.pa fc.votes fc.balances
@@ -265,25 +263,29 @@ theorem safeI_processAttestation (fc : FC) (hh : fc.held = false) (I : FI fc) (v
     · exact ⟨I, rfl⟩
     · split
       · exact ⟨I, rfl⟩
-      · refine ⟨⟨I.wf, I.chain, I.nz, voteProcess_votesIn fc.pa fc.spe fc.votes fc.changed v r s I.vin, ?_⟩, rfl⟩
+      · refine ⟨⟨I.wf, I.chain, I.nz, ?_⟩, rfl⟩
         intro i n hn
         show n.weight = wsum fc.pa (voteProcess fc.spe fc.votes fc.changed v r s).1 fc.balances i
         rw [voteProcess_weights fc.pa I.nz]
         exact I.w i n hn
 
 theorem safeI_processSlot (fc : FC) (hh : fc.held = false) (I : FI fc) (p : Root) (s j f : Nat) (hp : p ≠ 0)
-    (hok : (aGet fc.pa.indices ⟨s, p⟩).isSome ∨ ∃ s0, aGet fc.pa.blockSlots p = some s0 ∧ s0 ≤ s) :
+    (hok : (aGet fc.pa.indices ⟨s, p⟩).isSome ∨ ∃ s0, aGet fc.pa.blockSlots p = some s0 ∧ s0 ≤ s)
+    (hnr : ∀ v ∈ fc.votes, aGet fc.pa.indices v.cur = none → aGet (fc.pa.processSlot p s j f).indices v.cur = none) :
     SafeI (fc.processSlot p s j f) := by
   unfold FC.processSlot
   apply safeI_withLock fc hh
   have hw' := wf_processSlot fc.pa I.wf p s j f
   have g := processSlot_frame fc.pa I.wf p s j f
   have hz' := noZero_grow fc.pa _ I.nz g I.wf hw' (fun r hr => by rw [hr]; exact hp)
-  obtain ⟨w', v'⟩ := weights_grow fc.pa _ I.wf hw' g hz' fc.votes fc.balances I.vin I.w
-  exact ⟨⟨hw', chain_processSlot fc.pa I.wf I.chain p s j f hok, hz', v', w'⟩, rfl⟩
+  have w' := weights_grow' fc.pa _ I.wf hw' g hz' fc.votes fc.balances hnr I.w
+  exact ⟨⟨hw', chain_processSlot fc.pa I.wf I.chain p s j f hok, hz', w'⟩, rfl⟩
 
 theorem safeI_processBlock (fc : FC) (hh : fc.held = false) (I : FI fc) (p r : Root) (s j f : Nat) (hp : p ≠ 0)
-    (hr : r ≠ 0) : SafeI (fc.processBlock p r s j f) := by
+    (hr : r ≠ 0)
+    (hnr : ∀ v ∈ fc.votes, aGet fc.pa.indices v.cur = none →
+      aGet ((fc.pa.processBlock p r s j f).getD (fc.pa, false)).1.indices v.cur = none) :
+    SafeI (fc.processBlock p r s j f) := by
   unfold FC.processBlock
   apply safeI_withLock fc hh
   obtain ⟨pr', b, e, hw', g⟩ := processBlock_spec fc.pa I.wf p r s j f
@@ -293,8 +295,10 @@ theorem safeI_processBlock (fc : FC) (hh : fc.held = false) (I : FI fc) (p r : R
     rcases hx with hx | hx
     · rw [hx]; exact hp
     · rw [hx]; exact hr)
-  obtain ⟨w', v'⟩ := weights_grow fc.pa pr' I.wf hw' g hz' fc.votes fc.balances I.vin I.w
-  exact ⟨⟨hw', chain_processBlock fc.pa I.wf I.chain p r s j f pr' b e, hz', v', w'⟩, rfl⟩
+  have hnr' : ∀ v ∈ fc.votes, aGet fc.pa.indices v.cur = none → aGet pr'.indices v.cur = none := by
+    intro v hv hn; have := hnr v hv hn; rw [e] at this; exact this
+  have w' := weights_grow' fc.pa pr' I.wf hw' g hz' fc.votes fc.balances hnr' I.w
+  exact ⟨⟨hw', chain_processBlock fc.pa I.wf I.chain p r s j f pr' b e, hz', w'⟩, rfl⟩
 
 /-- `UpdateJustified` with an unchanged finalized checkpoint (nothing to prune) keeps all invariants -/
 theorem safeI_updateJustified (fc : FC) (hh : fc.held = false) (I : FI fc) (t : Root) (j f : Checkpoint)
@@ -346,13 +350,12 @@ theorem safeI_updateJustified (fc : FC) (hh : fc.held = false) (I : FI fc) (t : 
 
 theorem pinv_new (parent root : Root) (slot jE fE : Nat) (sink : SinkKind) (hr : root ≠ 0) :
     PInv (PA.new parent root slot jE fE sink) [] [] := by
-  refine ⟨wf_new .., chain_new .., ?_, ?_, ?_⟩
+  refine ⟨wf_new .., chain_new .., ?_, ?_⟩
   · unfold NoZero PA.new
     simp only [aGet, NodeRef.zero]
     have : (⟨slot, root⟩ : NodeRef) ≠ ⟨0, 0⟩ := by
       intro h; injection h with h1 h2; exact hr h2
     simp [this]
-  · intro v hv; cases hv
   · intro i n hn
     cases i with
     | zero => simp [PA.new] at hn; subst hn; simp [wsum, wsumFrom]
@@ -400,6 +403,11 @@ def MInv2 : MState → Prop
   | .live fc => fc.held = false ∧ FI fc
   | .dead => False
 
+/-- the insertion does not re-create a node that an applied vote names although it is not (no longer) in the array:
+a pruned node does not come back -/
+def NoRevive (fc : FC) (pa' : PA) : Prop :=
+  ∀ v ∈ fc.votes, aGet fc.pa.indices v.cur = none → aGet pa'.indices v.cur = none
+
 /-- the step is inside the domain of the refinement: roots are non-zero, an empty-slot insertion is under a known
 root at or after its first slot (or re-inserts an existing node), a new block root is not one that a vote still
 refers to (a root identifies one block: a pruned block does not come back as another one), and `UpdateJustified` leaves the finalized
@@ -407,10 +415,12 @@ checkpoint alone (so nothing is pruned) -/
 def StepOK (st : MState) (op : Op) : Prop :=
   match op, st with
   | .init _ ar _ _ _ _ _ _, _ => ar ≠ 0
-  | .slot p s _ _, .live fc =>
-    p ≠ 0 ∧ ((aGet fc.pa.indices ⟨s, p⟩).isSome ∨ ∃ s0, aGet fc.pa.blockSlots p = some s0 ∧ s0 ≤ s)
-  | .block p r _ _ _, .live fc =>
-    p ≠ 0 ∧ r ≠ 0 ∧ (aGet fc.pa.blockSlots r = none → ∀ v ∈ fc.votes, v.next.root ≠ r ∧ v.cur.root ≠ r)
+  | .slot p s j f, .live fc =>
+    p ≠ 0 ∧ ((aGet fc.pa.indices ⟨s, p⟩).isSome ∨ ∃ s0, aGet fc.pa.blockSlots p = some s0 ∧ s0 ≤ s) ∧
+      NoRevive fc (fc.pa.processSlot p s j f)
+  | .block p r s j f, .live fc =>
+    p ≠ 0 ∧ r ≠ 0 ∧ (aGet fc.pa.blockSlots r = none → ∀ v ∈ fc.votes, v.next.root ≠ r ∧ v.cur.root ≠ r) ∧
+      NoRevive fc ((fc.pa.processBlock p r s j f).getD (fc.pa, false)).1
   | .att _ r s, .live _ => ¬ (r = 0 ∧ s = 0)
   | .justify _ _ f _, .live fc => f = fc.finalized
   | _, _ => True
@@ -432,12 +442,12 @@ theorem stepLive_inv2 (fc : FC) (hh : fc.held = false) (I : FI fc) (op : Op) (ho
     MInv2 (stepLive fc op).1 := by
   cases op with
   | init => exact ⟨hh, I⟩
-  | slot p s j f => exact finish_inv2 _ _ (safeI_processSlot fc hh I p s j f hok.1 hok.2)
-  | block p r s j f => exact finish_inv2 _ _ (safeI_processBlock fc hh I p r s j f hok.1 hok.2.1)
+  | slot p s j f => exact finish_inv2 _ _ (safeI_processSlot fc hh I p s j f hok.1 hok.2.1 hok.2.2)
+  | block p r s j f => exact finish_inv2 _ _ (safeI_processBlock fc hh I p r s j f hok.1 hok.2.1 hok.2.2.2)
   | att v r s => exact finish_inv2 _ _ (safeI_processAttestation fc hh I v r s)
   | justify t j f b =>
     have I0 : FI { fc with pa := { fc.pa with sinkLog := [] } } :=
-      ⟨wf_sinkLog I.wf [], chain_congr (pr := fc.pa) (pr' := { fc.pa with sinkLog := [] }) rfl rfl rfl (fun _ => rfl) I.chain, I.nz, I.vin, fun i n hn => by
+      ⟨wf_sinkLog I.wf [], chain_congr (pr := fc.pa) (pr' := { fc.pa with sinkLog := [] }) rfl rfl rfl (fun _ => rfl) I.chain, I.nz, fun i n hn => by
         have := I.w i n hn
         rw [this]
         exact (wsumFrom_congr fc.pa { fc.pa with sinkLog := [] } fc.balances i fc.votes 0 (fun _ _ => rfl)).symm⟩
@@ -495,16 +505,30 @@ theorem inv_weights : ∀ (ops : List Op) (st : MState), MInv2 st → Admissible
     rw [run_cons]
     exact ih _ (step_inv2 st h op ha.1) ha.2
 
+/-- executable version of `NoRevive` -/
+def noReviveB (fc : FC) (pa' : PA) : Bool :=
+  fc.votes.all (fun v => (aGet fc.pa.indices v.cur).isSome || (aGet pa'.indices v.cur).isNone)
+
+theorem noReviveB_sound (fc : FC) (pa' : PA) (h : noReviveB fc pa' = true) : NoRevive fc pa' := by
+  intro v hv hn
+  unfold noReviveB at h
+  rw [List.all_eq_true] at h
+  have := h v hv
+  simp [hn] at this
+  exact this
+
 /-- executable version of `StepOK` -/
 def stepOKb (st : MState) (op : Op) : Bool :=
   match op, st with
   | .init _ ar _ _ _ _ _ _, _ => decide (ar ≠ 0)
-  | .slot p s _ _, .live fc =>
+  | .slot p s j f, .live fc =>
     decide (p ≠ 0) && ((aGet fc.pa.indices ⟨s, p⟩).isSome ||
-      (match aGet fc.pa.blockSlots p with | some s0 => decide (s0 ≤ s) | none => false))
-  | .block p r _ _ _, .live fc =>
+      (match aGet fc.pa.blockSlots p with | some s0 => decide (s0 ≤ s) | none => false)) &&
+      noReviveB fc (fc.pa.processSlot p s j f)
+  | .block p r s j f, .live fc =>
     decide (p ≠ 0) && decide (r ≠ 0) &&
-      ((aGet fc.pa.blockSlots r).isSome || fc.votes.all (fun v => decide (v.next.root ≠ r) && decide (v.cur.root ≠ r)))
+      ((aGet fc.pa.blockSlots r).isSome || fc.votes.all (fun v => decide (v.next.root ≠ r) && decide (v.cur.root ≠ r))) &&
+      noReviveB fc ((fc.pa.processBlock p r s j f).getD (fc.pa, false)).1
   | .att _ r s, .live _ => decide (¬ (r = 0 ∧ s = 0))
   | .justify _ _ f _, .live fc => decide (f = fc.finalized)
   | _, _ => true
@@ -518,8 +542,8 @@ theorem stepOKb_sound (st : MState) (op : Op) (h : stepOKb st op = true) : StepO
     | dead => trivial
     | live fc =>
       simp only [stepOKb, Bool.and_eq_true, Bool.or_eq_true, decide_eq_true_eq] at h
-      refine ⟨h.1, ?_⟩
-      rcases h.2 with h2 | h2
+      refine ⟨h.1.1, ?_, noReviveB_sound _ _ h.2⟩
+      rcases h.1.2 with h2 | h2
       · exact Or.inl h2
       · cases hb : aGet fc.pa.blockSlots p with
         | none => simp [hb] at h2
@@ -530,8 +554,8 @@ theorem stepOKb_sound (st : MState) (op : Op) (h : stepOKb st op = true) : StepO
     | dead => trivial
     | live fc =>
       simp only [stepOKb, Bool.and_eq_true, Bool.or_eq_true, decide_eq_true_eq, List.all_eq_true] at h
-      refine ⟨h.1.1, h.1.2, fun hnone v hv => ?_⟩
-      rcases h.2 with h2 | h2
+      refine ⟨h.1.1.1, h.1.1.2, fun hnone v hv => ?_, noReviveB_sound _ _ h.2⟩
+      rcases h.1.2 with h2 | h2
       · rw [hnone] at h2; cases h2
       · exact h2 v hv
   | justify t j f b =>
